@@ -13,7 +13,7 @@ one() {
   if ! (cd "$SCR/repo" && go build ./... ); then echo "BENIGN-ERROR $patch does not compile"; rm -rf "$SCR"; return; fi
   bad=""
   for p in $PROPS; do
-    "$VERIF_DIR/bin/govc" -prop $p -tier quick -repo "$SCR/repo" -verif "$VERIF_DIR" -out "$SCR/out" -noreplay >/dev/null 2>&1 || bad="$bad $p"
+    "${GOVC:-$VERIF_DIR/bin/govc}" -prop $p -tier quick -repo "$SCR/repo" -verif "$VERIF_DIR" -out "$SCR/out" -noreplay >/dev/null 2>&1 || bad="$bad $p"
   done
   if [ -z "$bad" ]; then echo "BENIGN-OK    $patch"; else echo "BENIGN-ALARM $patch:$bad"; fi
   rm -rf "$SCR"
